@@ -274,7 +274,24 @@ fn ipfix_pkt(rng: &mut Rng, sets: &[Vec<u8>]) -> Vec<u8> {
 pub fn family(rng: &mut Rng, big: bool) -> (&'static str, Vec<Vec<u8>>) {
     let cap = if big { 65000usize } else { 3000 };
     let id = 256 + rng.below(4) as u16;
-    match rng.below(12) {
+    match rng.below(13) {
+        12 => {
+            // many flowsets, each announcing a field count the bytes do not hold
+            let n = rng.urange(2, cap / 8 - 4);
+            let v9 = rng.chance(1, 2);
+            let mut sets = Vec::new();
+            for _ in 0..n {
+                let mut b = Vec::new();
+                be16(&mut b, id);
+                be16(&mut b, 65535);
+                if !v9 {
+                    be16(&mut b, 1);
+                }
+                sets.push(set(if v9 { 0 } else { 3 }, &b, 0));
+            }
+            let p = if v9 { v9_pkt(rng, &sets) } else { ipfix_pkt(rng, &sets) };
+            ("fam_many_sets_announcing_huge_counts", vec![p])
+        }
         0 => {
             // V9 template whose total size is zero, then data for it
             let nf = rng.urange(1, 4);
@@ -455,5 +472,97 @@ pub fn family(rng: &mut Rng, big: bool) -> (&'static str, Vec<Vec<u8>>) {
             let d = v9_pkt(rng, &[set(id, &body, 0)]);
             ("fam_v9_options_zero_length", vec![t, d])
         }
+    }
+}
+
+/// Scaling families: the same hostile/legit shape at a given size `n`, so that a super-linear
+/// cost law shows as a growing ratio between sizes n, 2n, 4n.
+pub const SCALED: &[&str] = &[
+    "scale_packed_ipfix_messages",
+    "scale_packed_v5_headers",
+    "scale_v9_one_byte_records",
+    "scale_ipfix_one_byte_records",
+    "scale_ipfix_empty_varlen_records",
+    "scale_v9_single_record_sets",
+    "scale_ipfix_single_record_sets",
+    "scale_v9_templates_in_one_flowset",
+    "scale_ipfix_template_sets",
+    "scale_v9_options_data_sets",
+];
+
+pub fn scaled(rng: &mut Rng, which: &str, n: usize) -> Vec<Vec<u8>> {
+    let id = 300u16;
+    match which {
+        "scale_packed_ipfix_messages" => {
+            let mut v = Vec::new();
+            for _ in 0..n {
+                v.extend(ipfix_wrap(&[], rng, None));
+            }
+            vec![v]
+        }
+        "scale_packed_v5_headers" => {
+            let mut v = Vec::new();
+            for _ in 0..n {
+                v.extend_from_slice(&[0, 5, 0, 0]);
+                v.extend(rng.bytes(20));
+            }
+            vec![v]
+        }
+        "scale_v9_one_byte_records" => {
+            vec![v9_pkt(rng, &[v9_tpl_flowset(id, &[(5, 1)])]), v9_pkt(rng, &[set(id, &vec![7u8; n], 0)])]
+        }
+        "scale_ipfix_one_byte_records" => {
+            vec![ipfix_pkt(rng, &[ipfix_tpl_set(id, &[(5, 1)])]), ipfix_pkt(rng, &[set(id, &vec![7u8; n], 0)])]
+        }
+        "scale_ipfix_empty_varlen_records" => {
+            vec![ipfix_pkt(rng, &[ipfix_tpl_set(id, &[(82, 65535)])]), ipfix_pkt(rng, &[set(id, &vec![0u8; n], 0)])]
+        }
+        "scale_v9_single_record_sets" => {
+            let sets: Vec<Vec<u8>> = (0..n).map(|_| set(id, &[1, 2, 3, 4], 0)).collect();
+            vec![v9_pkt(rng, &[v9_tpl_flowset(id, &[(1, 4)])]), v9_pkt(rng, &sets)]
+        }
+        "scale_ipfix_single_record_sets" => {
+            let sets: Vec<Vec<u8>> = (0..n).map(|_| set(id, &[1, 2, 3, 4], 0)).collect();
+            vec![ipfix_pkt(rng, &[ipfix_tpl_set(id, &[(1, 4)])]), ipfix_pkt(rng, &sets)]
+        }
+        "scale_v9_templates_in_one_flowset" => {
+            let mut b = Vec::new();
+            for i in 0..n {
+                be16(&mut b, 256 + (i % 4000) as u16);
+                be16(&mut b, 1);
+                be16(&mut b, 1);
+                be16(&mut b, 4);
+            }
+            vec![v9_pkt(rng, &[set(0, &b, 0)])]
+        }
+        "scale_ipfix_template_sets" => {
+            let sets: Vec<Vec<u8>> = (0..n).map(|i| ipfix_tpl_set(256 + (i % 4000) as u16, &[(1, 4)])).collect();
+            vec![ipfix_pkt(rng, &sets)]
+        }
+        _ => {
+            // V9 options template + n options-data flowsets of one record
+            let mut b = Vec::new();
+            be16(&mut b, id);
+            be16(&mut b, 4);
+            be16(&mut b, 4);
+            be16(&mut b, 1);
+            be16(&mut b, 4);
+            be16(&mut b, 10);
+            be16(&mut b, 4);
+            let t = v9_pkt(rng, &[set(1, &b, 2)]);
+            let sets: Vec<Vec<u8>> = (0..n).map(|_| set(id, &[1, 2, 3, 4, 5, 6, 7, 8], 0)).collect();
+            vec![t, v9_pkt(rng, &sets)]
+        }
+    }
+}
+
+/// size of one unit of a scaled family on the wire (to keep 4n units inside a datagram)
+pub fn unit(which: &str) -> usize {
+    match which {
+        "scale_packed_ipfix_messages" => 16,
+        "scale_packed_v5_headers" => 24,
+        "scale_v9_one_byte_records" | "scale_ipfix_one_byte_records" | "scale_ipfix_empty_varlen_records" => 1,
+        "scale_v9_options_data_sets" => 12,
+        _ => 8,
     }
 }
